@@ -25,7 +25,7 @@ def tagNames : List String :=
    "split:right_edge", "split:left_edge", "start:interior", "start:boundary", "compact:swap",
    "compact:skip_trailing", "compact:no_swap", "isolated:S", "seam:boundary", "seam:interior",
    "seam:none", "points:dedup_seam_start", "points:new_on_seam", "points:boundary_vertex",
-   "components>1", "valence:ctx_used"]
+   "components>1", "valence:ctx_used", "compact:swap_after_no_swap", "compact:skip_trailing>=2"]
 
 def tg_sym_C : Nat := 1
 def tg_sym_S : Nat := 2
@@ -50,6 +50,8 @@ def tg_points_new_on_seam : Nat := 524288
 def tg_points_boundary_vertex : Nat := 1048576
 def tg_components_1 : Nat := 2097152
 def tg_valence_ctx_used : Nat := 4194304
+def tg_compact_swap_after_no_swap : Nat := 8388608
+def tg_compact_skip_trailing_2 : Nat := 16777216
 
 def tagsOf (mask : Nat) : List String :=
   (tagNames.zipIdx.filter fun (_, i) => mask / 2 ^ i % 2 == 1).map (·.1)
@@ -350,21 +352,27 @@ def connLoop (ci : ConnIn) (tr : Trav) : R ConnOut := do
   if numFaces != ci.numFaces then throw .fail
   -- remove the vertices made isolated by TOPOLOGY_S
   let mut numVertices : Int := vc.size
+  let mut noSwapSeen := false
   for invalidVert in invalid do
     let mut srcVert := toUnsigned 32 (numVertices - 1)
     let mut fin := false
+    let mut skipped := 0
     for _ in [0:vc.size + 2] do
       if (← leftMost vc srcVert) != inv then
         fin := true
         break
       tags := tags ||| tg_compact_skip_trailing
+      skipped := skipped + 1
+      if skipped ≥ 2 then tags := tags ||| tg_compact_skip_trailing_2
       numVertices := numVertices - 1
       srcVert := toUnsigned 32 (numVertices - 1)
     if !fin then throw (.fuel "compaction: last valid vertex")
     if srcVert < invalidVert then
       tags := tags ||| tg_compact_no_swap
+      noSwapSeen := true
       continue
     tags := tags ||| tg_compact_swap
+    if noSwapSeen then tags := tags ||| tg_compact_swap_after_no_swap
     -- VertexCornersIterator over src_vert
     let start ← leftMost vc srcVert
     let mut c := start
